@@ -6,6 +6,7 @@ from fractions import Fraction as F
 import numpy as np
 
 from .. import proto
+from .. import thr_common
 from ..core import Check, Problem, register
 
 TOL = 1e-12
@@ -22,6 +23,26 @@ SIMPLE = ["demographic_parity", "selection_rate_parity", "false_positive_rate_pa
           "true_positive_rate_parity", "true_negative_rate_parity"]
 OBJ_SIMPLE = ["accuracy_score", "balanced_accuracy_score", "selection_rate", "true_positive_rate", "true_negative_rate"]
 OBJ_EO = ["accuracy_score", "balanced_accuracy_score"]
+
+
+# generated files the Pmf model is built from -> sha256 as lifted from the pinned tree
+PINNED_GENERATED = {"ThresholderSrc.lean": "e8eca555041924fd761db20bc5b1ecc2f78490203f85fbd3c516d3929ba7ff4c",
+                    "EgPredict.lean": "57a12efafd6e700b2fefc65687940694a7797563baf741f1def2bcdd7c40cace"}
+_GEN = {}
+
+
+def model_problem(msg):
+    """Lean model vs first-principles oracle: a bug of this machinery (exit 2) -- unless the model was built from lifted
+    text that differs from the pinned tree's: then the SOURCE departs from the oracle (broken tie, exit 1)"""
+    if "v" not in _GEN:
+        _GEN["v"] = thr_common.generated_changed(PINNED_GENERATED)
+    if _GEN["v"]:
+        _GEN["n"] = _GEN.get("n", 0) + 1
+        if _GEN["n"] > 2:       # keep exploring: the oracle must get the chance to find a failing input
+            return None
+        return Problem("correspondence", "translator-fed model departs from the first-principles oracle (lifted source "
+                       "text changed): " + msg, "C10.generated-vs-oracle")
+    return Problem("harness", msg)
 
 
 def fr(x):
@@ -155,14 +176,18 @@ class CHECK(Check):
                   "the pairing lifted from predict's source on every run (Generated/EgPredict.lean; id-aligned since the F7 "
                   "repair 74c05e5), plus the partial form for positional pairing under aligned weights_ and a proved "
                   "counter-witness for the old positional code. Partial by nature: the uniformity of numpy's generator is "
-                  "trusted; frequencies are checked statistically.")
+                  "trusted; frequencies are checked statistically. The thresholder clauses are proved for the expressions LIFTED "
+                  "from ThresholdOperation.__call__ / _pmf_predict / predict (Generated/ThresholderSrc.lean), their hypotheses are "
+                  "DERIVED for every model ThresholdOptimizer.fit produces (fitted_rules_valid_simple / _EO, "
+                  "fitted_pmf_is_distribution), and predict is row-wise in the draws for any draw sequence (predict_rowwise, "
+                  "predict_row_independent, predict_draw_count).")
     design_ref = "DESIGN.md section 4, C10"
     quick_cases = 70
     thorough_cases = 600
     quick_budget_s = 120
     thorough_budget_s = 1300
     workers_thorough = 4
-    rule = ("fitted models: ThresholdOptimizer (7 constraints x admissible objectives, flip on/off, grid 4..1000, prefit "
+    rule = ("fitted models: ThresholdOptimizer (7 constraints x admissible objectives, flip on/off, grid 1..1000 (small grids put the optimum on a hull vertex of every group; equalized odds then randomises through p_ignore alone), prefit "
             "pass-through scorer on dyadic scores or LogisticRegression/predict_proba, 2-3 groups with both labels), "
             "ExponentiatedGradient classification (DP/EO/TPRP/FPRP/ERP, tree or logistic learner, LP step on/off, 12-32 rows) "
             "and regression (BoundedGroupLoss with Square/AbsoluteLoss, tree or linear regressor, LP step on/off); query "
@@ -217,7 +242,11 @@ class CHECK(Check):
             query.append(["zz" if isinstance(names[0], str) else 99, "1/2"])
         return {"kind": "to", "groups": [r[0] for r in rows], "y": [r[1] for r in rows], "scores": [str(r[2]) for r in rows],
                 "constraints": cons, "objective": obj, "flip": rng.random() < 0.5,
-                "grid": rng.choice([4, 10, 16, 100, 1000]), "estimator": est, "query": query,
+                # small grids on purpose (more often for equalized odds): the optimum then sits on a hull VERTEX of every
+                # group (p0 in {0,1}), and under equalized odds p_ignore in (0,1) still makes the pmf fractional
+                "grid": rng.choice([1, 1, 2, 2, 4, 10, 16, 100, 1000] if cons == "equalized_odds"
+                                   else [1, 2, 4, 10, 16, 100, 1000]),
+                "estimator": est, "query": query,
                 "seed0": rng.randrange(10 ** 6)}
 
     def _gen_eg(self, rng, regression):
@@ -455,10 +484,12 @@ class CHECK(Check):
         if mo is not None and any(x == "bad-op" for x in mo):
             return [Problem("harness", f"driver rejected a line: {[l[:120] for l, x in zip(self.lines(case, o), mo) if x == 'bad-op'][:2]}")]
         if case["kind"] == "to":
-            return self._judge_to(case, o, mo)
-        if case["kind"] == "egc":
-            return self._judge_egc(case, o, mo)
-        return self._judge_egr(case, o, mo)
+            res = self._judge_to(case, o, mo)
+        elif case["kind"] == "egc":
+            res = self._judge_egc(case, o, mo)
+        else:
+            res = self._judge_egr(case, o, mo)
+        return [p for p in res if p is not None]
 
     def _judge_bernoulli(self, case, o, mo, mo_off, probs, what):
         """labels, exact replay of the draws, frequencies, reproducibility, determinism"""
@@ -503,7 +534,7 @@ class CHECK(Check):
                 if m != o["preds"][k]:
                     exp = "".join(str(int(b)) for b in (np.array(p1) >= uniforms(seeds[k], nq)))
                     if m != exp:
-                        probs.append(Problem("harness", f"model bernoulli {m} vs numpy {exp}"))
+                        probs.append(model_problem(f"model bernoulli {m} vs numpy {exp}"))
 
     def _judge_to(self, case, o, mo):
         probs = []
@@ -559,9 +590,9 @@ class CHECK(Check):
         if mo is not None:
             mp = proto.p_list(mo[0])
             if mp != want:
-                probs.append(Problem("harness", f"model pmf {mo[0][:80]} vs oracle {[str(w) for w in want][:4]}"))
+                probs.append(model_problem(f"model pmf {mo[0][:80]} vs oracle {[str(w) for w in want][:4]}"))
             if mo[1] != f"{proto.b(valid)} {proto.b(allgt)}":
-                probs.append(Problem("harness", f"model hypotheses {mo[1]} vs python {valid} {allgt}"))
+                probs.append(model_problem(f"model hypotheses {mo[1]} vs python {valid} {allgt}"))
         self._judge_bernoulli(case, o, mo, 2, probs, "ThresholdOptimizer")
         return probs
 
@@ -598,7 +629,7 @@ class CHECK(Check):
                 break
         if mo is not None:
             if proto.p_list(mo[0]) != want:
-                probs.append(Problem("harness", f"model EG pmf {mo[0][:80]} vs oracle {[str(x) for x in want][:4]}"))
+                probs.append(model_problem(f"model EG pmf {mo[0][:80]} vs oracle {[str(x) for x in want][:4]}"))
         self._judge_bernoulli(case, o, mo, 1, probs, "ExponentiatedGradient")
         return probs
 
@@ -667,7 +698,7 @@ class CHECK(Check):
             probs.append(Problem("property", "regression predict(random_state=s) is not reproducible", "C10.bernoulli_reproducible"))
         if mo is not None:
             if mo[0] != proto.b(aligned):
-                probs.append(Problem("harness", f"model aligned {mo[0]} vs python {aligned}"))
+                probs.append(model_problem(f"model aligned {mo[0]} vs python {aligned}"))
             for k in range(min(K_LEAN, NS)):
                 u = uniforms(seeds[k], nq)
                 cdf_pos = np.cumsum(pos_w) / np.sum(pos_w)
@@ -685,12 +716,12 @@ class CHECK(Check):
                 def same(a, b):   # the exact model and numpy's float cdf may differ only when u is within rounding of a cdf entry
                     return all(x == y or near[i] for i, (x, y) in enumerate(zip(a, b)))
                 if not same(m_id, n_id):
-                    probs.append(Problem("harness", f"model id-aligned draw {m_id} vs numpy {n_id}"))
+                    probs.append(model_problem(f"model id-aligned draw {m_id} vs numpy {n_id}"))
                 if not (same(m_code, n_pos) or same(m_code, n_id)):
-                    probs.append(Problem("harness", f"model draw (pairing lifted from the source) {m_code} is neither numpy's positional "
+                    probs.append(model_problem(f"model draw (pairing lifted from the source) {m_code} is neither numpy's positional "
                                                     f"{n_pos} nor id-aligned {n_id} draw"))
                 if aligned and not same(m_code, m_id):
-                    probs.append(Problem("harness", "aligned weights but the two model draws differ (theorem eg_regression_code_own_weight)"))
+                    probs.append(model_problem("aligned weights but the two model draws differ (theorem eg_regression_code_own_weight)"))
                 if not same(m_code, P[k]):
                     probs.append(Problem("correspondence", f"predict(random_state={seeds[k]}) = {P[k]} but the model of predict (pairing lifted from "
                                                            f"the source) draws {m_code}", "C10.regression_draw"))
@@ -721,6 +752,9 @@ class CHECK(Check):
                     tags.append("flipped_operation")
                 if any(0 < float(r["p0"]) < 1 for r in rules.values()):
                     tags.append("interpolating_rule")
+                elif any("p_ignore" in r and 0 < float(r["p_ignore"]) < 1 for r in rules.values()):
+                    tags.append("every_p0_in_{0,1}_but_0<p_ignore<1" + ("(randomised_on_query)" if any(
+                        0 < float(v) < 1 for v in o["pmf1"]) else ""))
                 if any(str(g) not in rules for g, _ in case["query"]):
                     tags.append("unseen_group_in_query")
                 p1 = [float(v) for v in o["pmf1"]]
